@@ -1,6 +1,6 @@
 (* Derive/Naming.v - faithful model of the name mangling of cddl-derive
    (/repo/cddl-derive/src/codegen.rs): to_snake_case (2014-2051), is_rust_keyword (2053-2097),
-   to_pascal_case (1977-2012), pascal_to_cddl_name (518-531), deduplicate_field_names (986-1002),
+   to_pascal_case (1977-2012), pascal_to_cddl_name (518-531), deduplicate_field_names (986-1012, as repaired by e9d7d94),
    the naming part of value_member_key_to_field / group_to_fields (959-970, 1074-1115) and the
    naming skeleton of collect_type_defs (535-598).
 
@@ -42,13 +42,14 @@ Definition is_alnum (c : N) : bool := is_alpha c || is_digit c.
 Definition to_lower (c : N) : N := if is_upper c then c + 32 else c.
 Definition to_upper (c : N) : N := if is_lower c then c - 32 else c.
 
-(* ---------- is_rust_keyword (codegen.rs:2053): the list the code escapes ---------- *)
+(* ---------- is_rust_keyword (codegen.rs:2063, with the words added by 073a092): the list the code escapes ---------- *)
 
 Definition code_keywords : list (list N) := map s2n
   [ "as"; "async"; "await"; "break"; "const"; "continue"; "crate"; "dyn"; "else"; "enum"; "extern";
     "false"; "fn"; "for"; "if"; "impl"; "in"; "let"; "loop"; "match"; "mod"; "move"; "mut"; "pub"; "ref";
     "return"; "self"; "Self"; "static"; "struct"; "super"; "trait"; "true"; "type"; "unsafe"; "use";
-    "where"; "while"; "yield"; "box" ]%string.
+    "where"; "while"; "yield"; "box";
+    "abstract"; "become"; "do"; "final"; "macro"; "override"; "priv"; "try"; "typeof"; "unsized"; "virtual" ]%string.
 
 Definition is_rust_keyword (s : list N) : bool := memb s code_keywords.
 
@@ -65,10 +66,6 @@ Definition rust_reserved_2021 : list (list N) := map s2n
     "virtual"; "yield"; "try" ]%string.
 
 Definition is_reserved (s : list N) : bool := memb s rust_reserved_2021.
-
-(* the reserved words is_rust_keyword does not know (classifier of finding kf-c17-reserved-word-unescaped) *)
-Definition unescaped_reserved : list (list N) :=
-  filter (fun w => negb (is_rust_keyword w)) rust_reserved_2021.
 
 (* ---------- to_snake_case (codegen.rs:2014) ---------- *)
 
@@ -182,22 +179,42 @@ Fixpoint seen_set (seen : list (list N * N)) (k : list N) (v : N) : list (list N
 
 Definition suffixed (base : list N) (k : N) : list N := base ++ [US] ++ dec k.
 
-Fixpoint dedup_loop (seen : list (list N * N)) (fs : list field) : list field :=
+(* `while !taken.insert(unique) { n += 1; unique = base_n }` : the first n' >= n with base_n' not taken.
+   Fuel-driven; None = out of fuel, excluded by dedup_total (at most |taken| candidates can be taken). *)
+Fixpoint find_free (fuel : nat) (taken : list (list N)) (base : list N) (n : N) : option N :=
+  match fuel with
+  | O => None
+  | S f => if memb (suffixed base n) taken then find_free f taken base (n + 1) else Some n
+  end.
+
+(* `taken: HashSet<String>` as a list (membership and insert only), `seen: HashMap<String, usize>` as above *)
+Fixpoint dedup_loop (taken : list (list N)) (seen : list (list N * N)) (fs : list field) : option (list field) :=
   match fs with
-  | [] => []
+  | [] => Some []
   | f :: t =>
     let base := fname f in
     let count := seen_get seen base + 1 in
-    let seen' := seen_set seen base count in
-    let f' := if 1 <? count
-              then let unique := suffixed base (count - 1) in
-                   {| fname := unique;
-                      forig := if list_eqb (forig f) base then unique else forig f |}
-              else f in
-    f' :: dedup_loop seen' t
+    if 1 <? count then
+      match find_free (S (List.length taken)) taken base (count - 1) with
+      | None => None
+      | Some n =>
+        let unique := suffixed base n in
+        let f' := {| fname := unique;
+                     forig := if list_eqb (forig f) base then unique else forig f |} in
+        match dedup_loop (unique :: taken) (seen_set seen base (n + 1)) t with
+        | None => None
+        | Some r => Some (f' :: r)
+        end
+      end
+    else
+      match dedup_loop taken (seen_set seen base count) t with
+      | None => None
+      | Some r => Some (f :: r)
+      end
   end.
 
-Definition dedup (fs : list field) : list field := dedup_loop [] fs.
+(* taken starts as the set of all field names of the struct *)
+Definition dedup (fs : list field) : option (list field) := dedup_loop (map fname fs) [] fs.
 
 (* ---------- field names of a struct generated from a map (group_to_fields) ---------- *)
 
@@ -213,7 +230,7 @@ Definition field_of_key (k : keydesc) : field :=
   | KNoKey => {| fname := s2n "value"; forig := s2n "value" |}
   end.
 
-Definition struct_fields (ks : list keydesc) : list field := dedup (map field_of_key ks).
+Definition struct_fields (ks : list keydesc) : option (list field) := dedup (map field_of_key ks).
 
 (* the JSON member name serde uses for a field: #[serde(rename = original)] is emitted iff it differs *)
 Definition serde_name (f : field) : list N := forig f.
@@ -267,25 +284,6 @@ Fixpoint occN (b : list N) (l : list (list N)) : N :=
   | x :: t => (if list_eqb b x then 1 else 0) + occN b t
   end.
 
-Fixpoint strip_prefix (p s : list N) : option (list N) :=
-  match p, s with
-  | [], _ => Some s
-  | x :: p', y :: s' => if x =? y then strip_prefix p' s' else None
-  | _ :: _, [] => None
-  end.
-
-(* n = m ++ "_" ++ <one or more decimal digits> *)
-Definition has_num_suffix_of (m n : list N) : bool :=
-  match strip_prefix m n with
-  | Some (c :: d :: ds) => (c =? US) && forallb is_digit (d :: ds)
-  | _ => false
-  end.
-
-(* no name of the list is a name occurring more than once followed by `_<digits>`
-   (the negation is the classifier of finding kf-c17-dedup-suffix-collision) *)
-Definition clash_free (names : list (list N)) : bool :=
-  forallb (fun m => (occN m names <=? 1) || forallb (fun n => negb (has_num_suffix_of m n)) names) names.
-
 (* a field keeps its JSON key through de-duplication when its key differs from its snake-case name or
    its name is unique in the struct (the negation is the classifier of finding kf-c17-dedup-renames-key) *)
 Definition key_stable (names : list (list N)) (f : field) : bool :=
@@ -324,13 +322,15 @@ Definition render_fields (fs : list field) : list N := sep_concat [44] (map rend
 Definition snake_render (s : list N) : list N := hex_str (to_snake s).
 Definition pascal_render (s : list N) : list N := hex_str (to_pascal s).
 Definition p2c_render (s : list N) : list N := hex_str (pascal_to_cddl s).
-Definition fields_render (ks : list keydesc) : list N := render_fields (struct_fields ks).
+Definition fields_render (ks : list keydesc) : list N :=
+  match struct_fields ks with
+  | Some fs => render_fields fs
+  | None => s2n "EFUEL"
+  end.
 Definition emit_render (rules : list (bool * list N)) : list N := sep_concat [44] (map hex_str (emit_names rules)).
 
 (* classifiers of the open findings, evaluated by the oracle on a failing case *)
 Definition b2n (b : bool) : N := if b then 49 else 48.
-Definition clash_render (ks : list keydesc) : list N := [b2n (clash_free (map fname (map field_of_key ks)))].
 Definition stable_render (ks : list keydesc) : list N :=
   let fs := map field_of_key ks in map (fun f => b2n (key_stable (map fname fs) f)) fs.
-Definition unescaped_render (s : list N) : list N := [b2n (memb (snake_pre s) unescaped_reserved)].
 Definition identok_render (s : list N) : list N := [b2n (ident_ok s)].
